@@ -1003,9 +1003,36 @@ func (p *Prover) Int(v ssa.Value, d int) (ILin, bool) {
 						if mx, ok := p.maxOf(in); ok {
 							p.setHi(a, mx>>uint(k))
 						}
+						p.floorDefs(x, a, in, int64(1)<<uint(k))
 					}
 				}
 				return lin1(a), true
+			}
+		case token.QUO:
+			// x / K for K > 0 and x >= 0: K*q <= x <= K*q + K - 1
+			if k, ok := ConstInt(x.Y); ok && k > 0 && uintBits(x.Type()) == 0 {
+				a := p.atom(akInt, x)
+				if in, ok := p.Int(x.X, d+1); ok {
+					if mn, ok := p.minOf(in); ok && mn >= 0 {
+						p.setLo(a, mn/k)
+						if mx, ok := p.maxOf(in); ok {
+							p.setHi(a, mx/k)
+						}
+						p.floorDefs(x, a, in, k)
+					}
+				}
+				return lin1(a), true
+			}
+		case token.SHL:
+			// x << k = x * 2^k when the product provably fits
+			if k, ok := ConstInt(x.Y); ok && k >= 0 && k < 62 && uintBits(x.Type()) == 0 {
+				if in, ok := p.Int(x.X, d+1); ok {
+					mn, ok1 := p.minOf(in)
+					mx, ok2 := p.maxOf(in)
+					if ok1 && ok2 && mn >= 0 && mx < int64(1)<<uint(62-k) {
+						return newILin().add(in, int64(1)<<uint(k)), true
+					}
+				}
 			}
 		}
 	case *ssa.Call:
@@ -1117,6 +1144,102 @@ func (p *Prover) Int(v ssa.Value, d int) (ILin, bool) {
 		}
 	}
 	return lin1(a), true
+}
+
+// floorDefs records K*a <= in <= K*a + K - 1 for a = floor(in / K), in >= 0.
+func (p *Prover) floorDefs(v ssa.Value, a string, in ILin, k int64) {
+	if p.seenDef[v] {
+		return
+	}
+	p.seenDef[v] = true
+	r := newILin().add(lin1(a), k) // K*a
+	p.addDef(v, in.add(r, -1))      // in - K*a >= 0
+	up := r.add(in, -1)
+	up.C += k - 1
+	p.addDef(v, up) // K*a + K - 1 - in >= 0
+}
+
+// SetRange fixes trusted bounds of an integer value (e.g. the documented range
+// of a library result) before it is used in linearisations.
+func (p *Prover) SetRange(v ssa.Value, lo, hi int64, hasHi bool) string {
+	a := p.atom(akInt, v)
+	p.setLo(a, lo)
+	if hasHi {
+		p.setHi(a, hi)
+	}
+	return a
+}
+
+// DefFacts returns every definitional fact recorded so far (diagnostics and
+// cross-function compositions; the caller is responsible for where they hold).
+func (p *Prover) DefFacts() []ILin {
+	var out []ILin
+	for _, d := range p.defs {
+		out = append(out, d.L)
+	}
+	return out
+}
+
+// BoundFacts renders the known bounds of the atoms of l as facts.
+func (p *Prover) BoundFacts(ls ...ILin) []ILin {
+	seen := map[string]bool{}
+	var out []ILin
+	for _, l := range ls {
+		for a := range l.Coef {
+			if seen[a] {
+				continue
+			}
+			seen[a] = true
+			if lo, ok := p.lo[a]; ok {
+				f := lin1(a)
+				f.C = -lo
+				out = append(out, f)
+			}
+			if p.hasHi[a] {
+				f := newILin()
+				f.Coef[a] = -1
+				f.C = p.hi[a]
+				out = append(out, f)
+			}
+		}
+	}
+	return out
+}
+
+// Rename prefixes every atom of l.
+func (l ILin) Rename(prefix string) ILin {
+	out := newILin()
+	out.C = l.C
+	for a, c := range l.Coef {
+		out.Coef[prefix+a] = c
+	}
+	return out
+}
+
+// ProveLinear decides facts => g >= 0 for integer-valued terms by refuting
+// facts /\ g <= -1 over the rationals (Fourier-Motzkin). No prover state is used.
+func ProveLinear(g ILin, facts []ILin) bool {
+	var rows []lpRow
+	for _, f := range facts {
+		rows = append(rows, lpFromILin(f))
+	}
+	ng := newILin().add(g, -1)
+	ng.C -= 1
+	rows = append(rows, lpFromILin(ng))
+	inf, ok := lpInfeasible(rows)
+	return ok && inf
+}
+
+// NewLin builds a linear term from a constant and (atom, coefficient) pairs.
+func NewLin(c int64, terms map[string]int64) ILin {
+	l := newILin()
+	l.C = c
+	for a, k := range terms {
+		if k != 0 {
+			l.Coef[a] = k
+		}
+	}
+	return l
 }
 
 // sameLin linearises all values and returns the common result when they agree.
